@@ -180,7 +180,25 @@ class C06(Check):
                         if tier == "thorough" or op in ("+", "/", "&", "<<"):
                             yield ("bin", op, ("L", a), ("L", b))
 
-        ls = [("L0-depth1", d1()), ("Lf-literal-spellings", forms())]
+        def extremes():
+            # the most negative value of each kind has no literal: it is -(MAX) - 1; paired with small negative and positive partners
+            minint = ("bin", "-", ("neg", ("L", ("int", 2147483647))), ("L", ("int", 1)))
+            minbig = ("bin", "-", ("neg", ("L", ("bigint", 2 ** 127 - 1))), ("L", ("bigint", 1)))
+            partners = [("neg", ("L", ("int", 1))), ("neg", ("L", ("bigint", 1))), ("neg", ("L", ("int", 2))), ("neg", ("L", ("float", 1.5))),
+                        ("L", ("int", 0)), ("L", ("int", 1)), ("L", ("byte", 1)), ("L", ("bigint", 1)), ("L", ("int", 31)), ("L", ("int", 32)),
+                        ("neg", ("L", ("int", 2147483647))), ("neg", ("L", ("bigint", 2 ** 127 - 1))), minint, minbig]
+            for m in (minint, minbig):
+                yield m
+                yield ("neg", m)
+                for op in OPS:
+                    for b in partners:
+                        yield ("bin", op, m, b)
+                        yield ("bin", op, b, m)
+            for op in OPS:
+                for a, b in itertools.product(SMALL, SMALL):
+                    yield ("bin", op, ("neg", ("L", a)), ("neg", ("L", b)))
+
+        ls = [("L0-depth1", d1()), ("Lf-literal-spellings", forms()), ("Lm-most-negative-values-and-negative-pairs", extremes())]
         if tier == "quick":
             def d2q():
                 for i, t in enumerate(d2()):
